@@ -19,7 +19,7 @@ def getter(name, local):
 
 def m_eq(a, b):
     """`a == b` in either operand order"""
-    return E.m_cmp("==", a, b) | E.m_cmp("==", b, a)
+    return E.M(E.m_cmp("==", a, b) | E.m_cmp("==", b, a), "(%s == %s)" % (a.desc, b.desc))
 
 
 def result_of(ck, fn, callee, on=None):
